@@ -144,6 +144,10 @@ pub fn c01_ops(seed: u64) -> Vec<Op> {
     let mut long = a.clone(); long.push(a[0]);
     let texts = vec![("A".to_string(), text_of(&a, " ")), ("A with another valid last word".into(), text_of(&a2, " ")), ("B (24 words)".into(), text_of(&b, " ")), ("A with a checksum bit flipped".into(), text_of(&bad, " ")), ("A plus a 13th word".into(), text_of(&long, " ")), ("A double-spaced".into(), text_of(&a, "  ")), ("24 words starting with the first 11 of A".into(), text_of(&extension(seed, &a), " "))];
     let mut texts = texts; texts.extend(zero_related(seed));
+    // refusals that happen PART-WAY through a phrase (a token that is no list word after some that are): whatever the parser
+    // accumulated up to there must not reach the next call
+    let unknown_at = |idx: &[usize], k: usize| { let mut t: Vec<&str> = idx.iter().map(|x| bip39::words()[*x]).collect(); t[k] = "zzzz"; t.join(" ") };
+    texts.push(("A with an unknown 6th word".into(), unknown_at(&a, 5))); texts.push(("A with an unknown last word".into(), unknown_at(&a, 11))); texts.push(("B with an unknown 2nd word".into(), unknown_at(&b, 1)));
     texts.into_iter().map(|(l, t)| op(format!("parse {l}: '{t}'"), move || crate::c01::verdict(&t))).collect()
 }
 pub fn c02_ops(seed: u64) -> Vec<Op> {
